@@ -40,7 +40,35 @@ fn rates() -> Vec<f32> {
     vec![0.0, 1e-3, 0.1, 0.3, 0.5, 0.9, 1.0, 1.5]
 }
 
+/// Genome sizes that a 32-bit float cannot hold exactly (odd sizes above 2^24): the 1/length
+/// mutator converts the size to a float; structure must survive that.
+fn huge_genomes(rep: &mut Report) {
+    for len in [(1usize << 24) + 1, (1 << 24) + 3] {
+        let bits: Vec<bool> = (0..len).map(|i| i % 7 == 0).collect();
+        let mut outs: Vec<(&'static str, Result<Result<Vec<bool>, String>, vh_core::PanicInfo>)> = Vec::new();
+        outs.push(("WithOneOverLength/Bitstring", catch(|| WithOneOverLength.mutate(Bitstring { bits: bits.clone() }, &mut TraceRng::new(len as u64)).map(|b| b.bits).map_err(|e| format!("{e:?}")))));
+        outs.push(("WithOneOverLength/Vec<bool>", catch(|| WithOneOverLength.mutate(bits.clone(), &mut TraceRng::new(len as u64)).map_err(|e| format!("{e:?}")))));
+        outs.push(("WithRate/Bitstring", catch(|| WithRate::new(0.0).mutate(Bitstring { bits: bits.clone() }, &mut TraceRng::new(len as u64)).map(|b| b.bits).map_err(|e| format!("{e:?}")))));
+        for (name, out) in outs {
+            rep.eval();
+            rep.count(&format!("{name}:huge-genome"));
+            match out {
+                Ok(Ok(c)) if c.len() == len => {
+                    if name.starts_with("WithRate") && c != bits {
+                        rep.violation(format!("C11/{name}/rate-0-not-identity"), || json!({"length": len}));
+                    }
+                }
+                Ok(Ok(c)) => rep.violation(format!("C11/{name}/length"), || json!({"parent_len": len, "child_len": c.len()})),
+                other => rep.violation(format!("C11/{name}/failed"), || json!({"config": format!("len={len}"), "observed": format!("{other:?}").chars().take(300).collect::<String>()})),
+            }
+        }
+    }
+}
+
 fn flips(seed: u64, shard: usize, rounds: usize, rep: &mut Report) {
+    if shard == 0 {
+        huge_genomes(rep);
+    }
     for r in 0..rounds {
         let mut g = Xo::derive(seed, "C11-flip", (shard * 1_000_003 + r) as u64);
         let len = if g.chance(1, 60) { *g.pick(&[63usize, 64, 65, 100, 127, 128, 129, 255, 256, 257, 1000, 1024, 1025, 4097]) } else { g.usize_below(41) };
